@@ -266,6 +266,13 @@ def oldReusePtr (nm : Name) : List Scope → List Scope
   | [] => []
   | sc :: r => { sc with locals := sc.locals ++ [nm] } :: r
 
+/-- decls.go:573-576 `structConstructor`: the constructor parameter for a field is the field name with a `_` suffix
+    (with and without minification). -/
+def ctorParam (field : Name) : Name := field ++ [95]
+
+/-- SEEDED-CHANGE SHAPE (not the code): the parameter is the bare field name when minifying. -/
+def ctorParamUnsuffixed (field : Name) : Name := field
+
 /-! ### Histories: what the compiler does with these functions.
   It translates one function at a time; a function literal is translated while its enclosing function is being
   translated. So the live contexts form a stack (the chain), every allocation is made in the innermost one, and a
